@@ -71,14 +71,18 @@ def _dict_cat(prefix, keyf, valf):
         return True
 
     def del_eff(o, k):
-        if not len(o):
-            o[keyf(k)] = valf(k)
-        key = sorted(o.keys(), key=repr)[0]
+        # (always one of the catalogue's own keys: what else the mapping holds - public.verticalOrigin in a glyph lib … - stays;
+        # a mapping without that key gets it instead: recorded as the item assignment it is)
+        key = keyf(k)
+        if key not in o:
+            o[key] = valf(k)
+            return prefix + "__setitem__"
         del o[key]
 
     def clear_eff(o, k):
         if not len(o):
             o[keyf(k)] = valf(k)
+            return prefix + "__setitem__"
         o.clear()
 
     def clear_same(o):
@@ -88,9 +92,22 @@ def _dict_cat(prefix, keyf, valf):
         return True
 
     def update_eff(o, k):
-        o.update({keyf(k): valf(k + 3)})
+        v = valf(k + 3)
+        if keyf(k) in o and o[keyf(k)] == v:
+            v = valf(k + 4)
+        o.update({keyf(k): v})
     return [(prefix + "__setitem__", set_eff, set_same), (prefix + "__delitem__", del_eff, None),
             (prefix + "clear", clear_eff, clear_same), (prefix + "update", update_eff, None)]
+
+
+_CTX = {"tree": None}     # the tree of the running case (which object is the newest child of a container)
+
+
+def _newest(objs):
+    """the object of the list that joined the tree last (the model removes `the attached child with the greatest id`)"""
+    tree = _CTX["tree"]
+    ids = tree.ids if tree is not None else {}
+    return max(objs, key=lambda o: ids.get(id(o), 10 ** 9))
 
 
 def _glyph_append(kind):
@@ -122,13 +139,14 @@ def _children(g, kind):
 
 
 def _glyph_reappend(kind):
-    """take the last object out and put the same object back (the glyph must observe it again)"""
+    """take the newest object out and put the same object back (the glyph must observe it again); a glyph without such
+    an object gets one first"""
     def eff(g, k):
         lst = _children(g, kind)
         if not lst:
             _glyph_append(kind)(g, k)
             lst = _children(g, kind)
-        obj = lst[-1]
+        obj = _newest(lst)
         getattr(g, "remove" + kind.capitalize())(obj)
         getattr(g, "append" + kind.capitalize())(obj)
     return eff
@@ -143,8 +161,20 @@ def _font_append_guideline(f, k):
 def _font_reorder_guidelines(f, k):
     if len(f.guidelines) < 2:
         _font_append_guideline(f, k)
-        _font_append_guideline(f, k + 1)
+        return "appendGuideline"
     f.guidelines = list(reversed(f.guidelines))
+
+
+def _font_remove_guideline(f, k):
+    if not f.guidelines:
+        _font_append_guideline(f, k)
+    f.removeGuideline(_newest(f.guidelines))
+
+
+def _font_clear_guidelines(f, k):
+    if not f.guidelines:
+        _font_append_guideline(f, k)
+    f.clearGuidelines()
 
 
 def _color_same_spelled(o):
@@ -159,14 +189,13 @@ def _color_same_spelled(o):
 
 
 def _glyph_remove(kind):
+    """remove the newest object of that kind (a glyph without one gets one first, which then leaves again)"""
     def eff(g, k):
-        lst = {"contour": lambda: list(g), "component": lambda: list(g.components), "anchor": lambda: list(g.anchors),
-               "guideline": lambda: list(g.guidelines)}[kind]()
+        lst = _children(g, kind)
         if not lst:
             _glyph_append(kind)(g, k)
-            lst = {"contour": lambda: list(g), "component": lambda: list(g.components), "anchor": lambda: list(g.anchors),
-                   "guideline": lambda: list(g.guidelines)}[kind]()
-        getattr(g, "remove" + kind.capitalize())(lst[-1])
+            lst = _children(g, kind)
+        getattr(g, "remove" + kind.capitalize())(_newest(lst))
     return eff
 
 
@@ -174,35 +203,51 @@ def _glyph_clear(kind):
     plural = {"contour": "Contours", "component": "Components", "anchor": "Anchors", "guideline": "Guidelines"}[kind]
 
     def eff(g, k):
-        n = {"contour": len(g), "component": len(g.components), "anchor": len(g.anchors), "guideline": len(g.guidelines)}[kind]
-        if not n:
+        if not _children(g, kind):
             _glyph_append(kind)(g, k)
         getattr(g, "clear" + plural)()
     return eff
 
 
+_PEN_TROUBLE = ("PenError", "AssertionError", "NotImplementedError", "IndexError", "ZeroDivisionError")
+
+
 def _margin(attr):
+    """An effective margin change needs an outline with bounds.  What is decided from public reads BEFORE the call names
+    the mutator that is then run (the returned string): a glyph whose bounds cannot be computed gets another width, a
+    glyph without bounds gets a contour, `bottomMargin=` on a glyph without a vertical origin is a variant of its own
+    (it also writes the glyph lib)."""
     def eff(g, k):
-        if g.bounds is None:
+        try:
+            bounds = g.bounds
+            cur = getattr(g, attr) if bounds is not None else None
+        except Exception as e:
+            if type(e).__name__ not in _PEN_TROUBLE:
+                raise
+            _bump_width(g, k)
+            return "width="
+        if bounds is None:
             _glyph_append("contour")(g, k)
-        cur = getattr(g, attr)
+            return "appendContour"
+        variant = None
+        if attr == "bottomMargin" and g.verticalOrigin is None:
+            variant = "bottomMargin=[no vertical origin]"
         setattr(g, attr, (cur or 0) + 7 + k)
+        return variant
 
     def same(g):
-        if g.bounds is None:
-            return False
-        if attr in ("bottomMargin", "topMargin"):
-            return False      # vertical margins write verticalOrigin into the lib (F26): not a plain re-assignment
-        setattr(g, attr, getattr(g, attr))
-        return True
-    def same_safe(g):
         try:
-            return same(g)
+            if g.bounds is None:
+                return False
+            if attr in ("bottomMargin", "topMargin"):
+                return False      # vertical margins write verticalOrigin into the lib (F26): not a plain re-assignment
+            setattr(g, attr, getattr(g, attr))
         except Exception as e:
             if type(e).__name__ == "PenError":
                 return False
             raise
-    return (attr + "=", _safe(eff, _bump_width), same_safe)
+        return True
+    return (attr + "=", eff, same)
 
 
 def _image_set(g, k):
@@ -220,33 +265,69 @@ def _image_same(g):
     return True
 
 
-def _safe(f, fallback=None):
-    """mutators that go through fontTools pens raise on contours that earlier point edits left undrawable
-    (a curve point without its off-curves …): fall back to a plain edit, which is an effective change too"""
-    def eff(c, k):
-        try:
-            f(c, k)
-        except Exception as e:
-            if type(e).__name__ not in ("PenError", "AssertionError", "NotImplementedError", "IndexError", "ZeroDivisionError"):
-                raise
-            if fallback is not None:
-                fallback(c, k)
-            else:
-                c.appendPoint(c._pointClass((k, 4), "line"))
-    return eff
+def _glyph_clear_image(g, k):
+    _image_set(g, k)
+    g.clearImage()
+
+
+def _glyph_clear_all(g, k):
+    # (an anchor and an image first, so that there is something to clear)
+    _glyph_append("anchor")(g, k)
+    _image_set(g, k)
+    g.clear()
+
+
+def _glyph_move(g, k):
+    if not len(g) and not g.components and not g.anchors:
+        _glyph_append("contour")(g, k)
+        return "appendContour"
+    g.move((1 + k, 2))
 
 
 def _bump_width(g, k):
     g.width = (g.width or 0) + 13 + k
 
 
+def _append_point(c, k, y=4):
+    c.appendPoint(c._pointClass((k, y), "line"))
+    return "appendPoint"
+
+
+def _distinct(c):
+    """three or more points, no two at the same place: reversing or rotating the contour changes its point list"""
+    pts = [(p.x, p.y) for p in c]
+    return len(pts) >= 3 and len(set(pts)) == len(pts)
+
+
+def _contour_op(f, need_distinct=True):
+    """mutators that go through fontTools pens raise on contours that earlier point edits left undrawable (a curve
+    point without its off-curves …), and reversing a contour whose points coincide changes nothing: such a contour gets a
+    point instead - an effective change of the same object - and the op is recorded under that mutator's name"""
+    def eff(c, k):
+        _contour_pts(c, k)
+        if need_distinct and not _distinct(c):
+            return _append_point(c, k)
+        try:
+            return f(c, k)
+        except Exception as e:
+            if type(e).__name__ not in _PEN_TROUBLE:
+                raise
+            return _append_point(c, k)
+    return eff
+
+
 def _set_start(c, k):
     """an effective start-point change needs a closed contour with a second on-curve point; otherwise add a point"""
     on = [i for i, p in enumerate(c) if p.segmentType is not None and i != 0]
     if c.open or not on or len(c.onCurvePoints) < 2:
-        c.appendPoint(c._pointClass((k, 3), "line"))
-    else:
-        c.setStartPoint(on[0])
+        return _append_point(c, k, 3)
+    c.setStartPoint(on[0])
+
+
+def _contour_identifier(c, k):
+    if c.identifier is not None:
+        return _append_point(c, k, 1)
+    c.identifier = "cid%d" % id(c)
 
 
 def _contour_pts(c, k):
@@ -271,41 +352,73 @@ def _image_same_as_disk(s):
     return False
 
 
+def _layer_order(ls, k):
+    if len(ls.layerOrder) < 2:
+        ls.newLayer("lo%d" % k)
+        return "newLayer"
+    ls.layerOrder = list(reversed(ls.layerOrder))
+
+
+def _layer_delete_glyph(l, k):
+    """delete the glyph that joined the layer last; whether the font's glyph order follows (the name is listed and no
+    other layer has a glyph of that name) is read before the call and names the variant"""
+    names = list(l.keys())
+    if not names:
+        l.newGlyph("dg%d" % k)
+        return "newGlyph"
+    g = _newest([l[n] for n in names])
+    name = g.name
+    font = l.font
+    elsewhere = any(name in other for other in font.layers if other is not l)
+    listed = name in font.glyphOrder
+    del l[name]
+    if elsewhere or not listed:
+        return "__delitem__[glyph order unchanged]"
+
+
+def _do(*fs):
+    """run the calls in order, return nothing (the entry is recorded under its own name)"""
+    def eff(o, k):
+        for f in fs:
+            f(o, k)
+    return eff
+
+
 # glyph attributes that live in the glyph's lib: the lib object is what changes (the glyph follows through its callback)
 VIA_LIB = {"markColor=", "verticalOrigin="}
-ALSO_LIB = {"topMargin=", "bottomMargin="}
+ALSO_LIB = {"topMargin=", "bottomMargin=", "bottomMargin=[no vertical origin]"}
 
 CATALOGUE = {
     "font": [
-        ("glyphOrder=", lambda f, k: setattr(f, "glyphOrder", ["zz%d" % k] + [n for n in f.glyphOrder if not n.startswith("zz")]),
+        ("glyphOrder=", _do(lambda f, k: setattr(f, "glyphOrder", ["zz%d" % k] + [n for n in f.glyphOrder if not n.startswith("zz")])),
          lambda f: (setattr(f, "glyphOrder", list(f.glyphOrder)) or True)),
         ("appendGuideline", _font_append_guideline, None),
         ("guidelines=reordered", _font_reorder_guidelines, None),
-        ("removeGuideline", lambda f, k: (f.guidelines or f.appendGuideline(dict(x=None, y=5, angle=None))) and f.removeGuideline(f.guidelines[-1]), None),
-        ("clearGuidelines", lambda f, k: (f.guidelines or f.appendGuideline(dict(x=None, y=5, angle=None))) and f.clearGuidelines(), None),
+        ("removeGuideline", _font_remove_guideline, None),
+        ("clearGuidelines", _font_clear_guidelines, None),
     ],
     "layerSet": [
-        ("layerOrder=", lambda ls, k: ls.newLayer("lo%d" % k) and setattr(ls, "layerOrder", list(reversed(ls.layerOrder))),
+        ("layerOrder=", _layer_order,
          lambda ls: (setattr(ls, "layerOrder", list(ls.layerOrder)) or True)),
-        ("newLayer", lambda ls, k: ls.newLayer("ln%d" % k), None),
-        ("__delitem__", lambda ls, k: ls.newLayer("del%d" % k) and ls.__delitem__("del%d" % k), None),
+        ("newLayer", _do(lambda ls, k: ls.newLayer("ln%d" % k)), None),
+        ("__delitem__", _do(lambda ls, k: ls.newLayer("del%d" % k), lambda ls, k: ls.__delitem__("del%d" % k)), None),
         ("defaultLayer=", None, lambda ls: (setattr(ls, "defaultLayer", ls.defaultLayer) or True)),
     ],
     "layer": [
         _set("color", COLORS), ("color=spelled", None, _color_same_spelled),
-        ("newGlyph", lambda l, k: l.newGlyph("ng%d" % k), None),
-        ("__delitem__", lambda l, k: l.newGlyph("dg%d" % k) and l.__delitem__("dg%d" % k), None),
-        ("insertGlyph", lambda l, k: l.insertGlyph(_standalone_glyph(k), name="ig%d" % k), None),
+        ("newGlyph", _do(lambda l, k: l.newGlyph("ng%d" % k)), None),
+        ("__delitem__", _layer_delete_glyph, None),
+        ("insertGlyph", _do(lambda l, k: l.insertGlyph(_standalone_glyph(k), name="ig%d" % k)), None),
     ],
     "glyph": [
         _set("width", [0, 300, 512, 777]), _set("height", [0, 500, 1000]), _set("note", [None, "n1", "n2"]),
         _set("unicodes", [[], [65], [66, 67]]),
-        ("unicode=", lambda g, k: setattr(g, "unicode", 70 + k if g.unicode != 70 + k else 71 + k),
+        ("unicode=", _do(lambda g, k: setattr(g, "unicode", 70 + k if g.unicode != 70 + k else 71 + k)),
          lambda g: len(g.unicodes) <= 1 and (setattr(g, "unicode", g.unicode) or True)), _set("markColor", [None] + COLORS),
         _set("verticalOrigin", [None, 700, 800]),
         _margin("leftMargin"), _margin("rightMargin"), _margin("bottomMargin"), _margin("topMargin"),
         ("image=", _image_set, _image_same),
-        ("clearImage", lambda g, k: (_image_set(g, k), g.clearImage()), None),
+        ("clearImage", _glyph_clear_image, None),
         ("appendContour", _glyph_append("contour"), None), ("removeContour", _glyph_remove("contour"), None),
         ("clearContours", _glyph_clear("contour"), None),
         ("appendComponent", _glyph_append("component"), None), ("removeComponent", _glyph_remove("component"), None),
@@ -316,50 +429,53 @@ CATALOGUE = {
         ("clearGuidelines", _glyph_clear("guideline"), None),
         ("reappendContour", _glyph_reappend("contour"), None), ("reappendComponent", _glyph_reappend("component"), None),
         ("reappendAnchor", _glyph_reappend("anchor"), None), ("reappendGuideline", _glyph_reappend("guideline"), None),
-        ("move", _safe(lambda g, k: (len(g) or _glyph_append("contour")(g, k), g.move((1 + k, 2))), _bump_width), None),
-        ("clear", lambda g, k: (_glyph_append("anchor")(g, k), g.clear()), None),
-        ("name=", lambda g, k: setattr(g, "name", "rn%d" % k), lambda g: (setattr(g, "name", g.name) or True)),
+        ("move", _glyph_move, None),
+        ("clear", _glyph_clear_all, None),
+        ("name=", _do(lambda g, k: setattr(g, "name", "rn%d" % k)), lambda g: (setattr(g, "name", g.name) or True)),
     ],
     "contour": [
-        ("appendPoint", lambda c, k: c.appendPoint(c._pointClass((k, 5), "line")), None),
-        ("insertPoint", lambda c, k: c.insertPoint(0, c._pointClass((k, 9), "line")), None),
-        ("removePoint", lambda c, k: (_contour_pts(c, k), c.removePoint(c[-1])), None),
-        ("reverse", _safe(lambda c, k: (_contour_pts(c, k), c.reverse())), None),
-        ("move", _safe(lambda c, k: (_contour_pts(c, k), c.move((3 + k, 1)))), None),
-        ("setStartPoint", _safe(lambda c, k: _set_start(c, k)), None),
-        ("identifier=", lambda c, k: c.identifier is None and setattr(c, "identifier", "cid%d" % id(c)) or c.appendPoint(c._pointClass((k, 1), "line")),
+        ("appendPoint", _do(lambda c, k: c.appendPoint(c._pointClass((k, 5), "line"))), None),
+        ("insertPoint", _do(lambda c, k: c.insertPoint(0, c._pointClass((k, 9), "line"))), None),
+        ("removePoint", _do(_contour_pts, lambda c, k: c.removePoint(c[-1])), None),
+        ("reverse", _contour_op(lambda c, k: c.reverse()), None),
+        ("move", _contour_op(lambda c, k: c.move((3 + k, 1)), need_distinct=False), None),
+        ("setStartPoint", _contour_op(_set_start), None),
+        ("identifier=", _contour_identifier,
          lambda c: (c.identifier is not None) and (setattr(c, "identifier", c.identifier) or True)),
-        ("clockwise=", _safe(lambda c, k: (_contour_pts(c, k), setattr(c, "clockwise", not c.clockwise))),
+        ("clockwise=", _contour_op(lambda c, k: setattr(c, "clockwise", not c.clockwise)),
          lambda c: len(c) >= 3 and all(p.segmentType == "line" for p in c) and (setattr(c, "clockwise", c.clockwise) or True)),
-        ("clear", lambda c, k: (_contour_pts(c, k), c.clear()), None),
+        ("clear", lambda c, k: _append_point(c, k) if not len(c) else c.clear(), None),
     ],
     "component": [
         _set("baseGlyph", ["nobase0", "nobase1", "nobase2"]),
-        ("transformation=", lambda c, k: setattr(c, "transformation", (1, 0, 0, 1, 10 + k, 20)),
+        ("transformation=", _do(lambda c, k: setattr(c, "transformation", (1, 0, 0, 1, 10 + k, 20))),
          lambda c: (setattr(c, "transformation", tuple(c.transformation)) or True)),
-        ("move", lambda c, k: c.move((1 + k, 1)), None),
+        ("move", _do(lambda c, k: c.move((1 + k, 1))), None),
     ],
     "anchor": [_set("x", [1, 2, 3, 4]), _set("y", [5, 6, 7]), _set("name", [None, "top", "bottom"]), _set("color", [None] + COLORS),
-               ("color=spelled", None, _color_same_spelled), ("move", lambda a, k: a.move((1 + k, 1)), None)],
+               ("color=spelled", None, _color_same_spelled), ("move", _do(lambda a, k: a.move((1 + k, 1))), None)],
     "guideline": [_set("x", [11, 12, 13]), _set("name", [None, "ga", "gb"]), _set("color", [None] + COLORS),
                   ("color=spelled", None, _color_same_spelled)],
     "image": [_set("fileName", ["img0.png", "img1.png", "img2.png"]), _set("color", [None] + COLORS),
-              ("transformation=", lambda i, k: setattr(i, "transformation", (1, 0, 0, 1, 30 + k, 0)),
+              ("transformation=", _do(lambda i, k: setattr(i, "transformation", (1, 0, 0, 1, 30 + k, 0))),
                lambda i: (setattr(i, "transformation", tuple(i.transformation)) or True)),
-              ("move", lambda i, k: i.move((1 + k, 2)), None)],
+              ("move", _do(lambda i, k: i.move((1 + k, 2))), None)],
     "lib": _dict_cat("", lambda k: "com.k%d" % (k % 4), lambda k: {"v": k}),
     "info": [_set("familyName", ["A", "B", "C"]), _set("unitsPerEm", [1000, 2048, 512]), _set("ascender", [700, 750, 800]),
              _set("openTypeOS2WeightClass", [400, 500, 700]), _set("postscriptBlueValues", [[], [0, 10], [-10, 0, 500, 510]])],
     "kerning": _dict_cat("", lambda k: ("A", "kr%d" % (k % 4)), lambda k: -10 - k),
     "groups": _dict_cat("", lambda k: "grp%d" % (k % 4), lambda k: ["A", "g%d" % k]),
     "features": [_set("text", ["# a\n", "# b\n", "# c\n"])],
-    "images": [("__setitem__", lambda s, k: s.__setitem__("i%d.png" % (k % 3), fg.png_bytes(20 + k)),
+    "images": [("__setitem__", _do(lambda s, k: s.__setitem__("i%d.png" % (k % 3), fg.png_bytes(20 + k))),
                 lambda s: bool(s.fileNames) and (s.__setitem__(sorted(s.fileNames)[0], s[sorted(s.fileNames)[0]]) or True)),
-               ("__delitem__", lambda s, k: (s.__setitem__("d%d.png" % k, fg.png_bytes(40 + k)), s.__delitem__("d%d.png" % k)), None),
+               ("__delitem__", _do(lambda s, k: s.__setitem__("d%d.png" % k, fg.png_bytes(40 + k)), lambda s, k: s.__delitem__("d%d.png" % k)), None),
                ("__setitem__unread", None, _image_same_as_disk)],
-    "data": [("__setitem__", lambda s, k: s.__setitem__("f%d.txt" % (k % 3), fg.data_bytes(20 + k)), None),
-             ("__delitem__", lambda s, k: (s.__setitem__("d%d.txt" % k, fg.data_bytes(40 + k)), s.__delitem__("d%d.txt" % k)), None)],
+    "data": [("__setitem__", _do(lambda s, k: s.__setitem__("f%d.txt" % (k % 3), fg.data_bytes(20 + k))), None),
+             ("__delitem__", _do(lambda s, k: s.__setitem__("d%d.txt" % k, fg.data_bytes(40 + k)), lambda s, k: s.__delitem__("d%d.txt" % k)), None)],
 }
+
+# the names an entry can be recorded under besides its own (decided before the call, see _margin / _contour_op)
+VARIANTS = {"glyph": ["bottomMargin=[no vertical origin]"], "layer": ["__delitem__[glyph order unchanged]"]}
 
 
 def _standalone_glyph(k):
@@ -791,11 +907,36 @@ def _dirty_set(tree):
     return res
 
 
+FP_KINDS = ("contour", "component", "anchor", "guideline", "image", "lib")
+_CALIB = None      # a list, when harness/selftest/C02/calibrate.py collects what each mutator was seen to do
+
+
+def _deepest(tree, nodes):
+    """the members of `nodes` that have no descendant in `nodes`"""
+    nodes = set(nodes)
+    return sorted(j for j in nodes if not any(j in tree.path(c)[1:] for c in nodes))
+
+
+def _rel(tree, i, j):
+    """where node j sits, seen from the receiver i (calibration aid only)"""
+    kj = tree.nodes[j][1]
+    if j == i:
+        return "self"
+    if tree.nodes[j][2] == i:
+        return "child:" + kj
+    if j in tree.path(i):
+        return "ancestor:" + kj
+    if kj == "lib" and tree.nodes[j][2] == 0:
+        return "font.lib"
+    return "other:" + kj
+
+
 def run(case, want_lines):
     tmpd = tempfile.mkdtemp(prefix="vc02_")
     try:
         font = _build(case, tmpd)
         tree = Tree(font)
+        _CTX["tree"] = tree
         wscope = case.get("watcher")
         # (the global watcher registers first: the centre serves it before the Recorder)
         watcher = Watcher(tree, "global", font) if wscope == "global" else None
@@ -807,9 +948,9 @@ def run(case, want_lines):
         keep = [tree, rec, watcher]
         outs, lines, viol = [], [], []
         stats = {"origin." + case["origin"]: 1}
-        # initial flags
+        # the initial tree (shape, kinds) and flags: the only thing the model is told about the font
         init_dirty = _dirty_set(tree)
-        lines.append([Atom("init"), [[i, (-1 if p is None else p)] for i, (o, k, p) in enumerate(tree.nodes)], init_dirty])
+        lines.append([Atom("init"), [[i, (-1 if p is None else p), Atom(k)] for i, (o, k, p) in enumerate(tree.nodes)], init_dirty])
         outs.append(Atom("ok"))
         holds = {}
         touched_since = []     # (node, log index) of effective changes whose propagation is still owed
@@ -820,13 +961,12 @@ def run(case, want_lines):
             i = _pick(tree, kind, op[2])
             before_dirty = set(_dirty_set(tree))
             before_attached = {j for j in range(len(tree.nodes)) if tree.attached(j)}
-            before_fp = _fingerprints(tree) if op[0] == "touch" else {}
-            before_order = copy.deepcopy(font.lib.get("public.glyphOrder"))
+            before_fp = _fingerprints(tree)
             mark = len(rec.log)
             wlen = len(watcher.log) if watcher is not None else 0
             wbefore = watcher.snapshot() if watcher is not None else set()
             nnodes = len(tree.nodes)
-            line = [Atom("noop")]
+            line = [Atom("nop")]
             if i is None:
                 outs.append([Atom("skip")])
                 lines.append([Atom("skip")])
@@ -843,11 +983,12 @@ def run(case, want_lines):
                     lines.append([Atom("skip")])
                     continue
                 name, eff, same = cands[op[3] % len(cands)]
-                stats["%s.%s.%s" % (op[0], kind, name)] = stats.get("%s.%s.%s" % (op[0], kind, name), 0) + 1
                 applied = True
                 try:
                     if op[0] == "touch":
-                        eff(obj, step)
+                        variant = eff(obj, step)
+                        if isinstance(variant, str):
+                            name = variant      # decided from public reads before the call (see _margin, _contour_op)
                     else:
                         applied = bool(same(obj))
                 except Exception as e:
@@ -860,12 +1001,11 @@ def run(case, want_lines):
                     outs.append([Atom("skip")])
                     lines.append([Atom("skip")])
                     continue
-                if op[0] == "touch":
-                    line = [Atom("touch"), i]       # completed below, once the side effects are known
-                    if len(tree.path(i)) >= 3:
-                        deep = True
-                else:
-                    line = [Atom("same"), i]
+                stats["%s.%s.%s" % (op[0], kind, name)] = stats.get("%s.%s.%s" % (op[0], kind, name), 0) + 1
+                # ALL the model is told: receiver, its kind, the mutator's name, effective or same-value
+                line = [Atom("mut"), i, Atom(kind), name, Atom("effective" if op[0] == "touch" else "same")]
+                if op[0] == "touch" and len(tree.path(i)) >= 3:
+                    deep = True
             elif op[0] in ("ohold", "orelease"):
                 # (observer-scoped and object-scoped brackets are not nested into each other: what a release re-posts into
                 # another hold is the notification centre's business, C04)
@@ -886,7 +1026,7 @@ def run(case, want_lines):
                     viol.append(dict(clause="C02/hold-release-raised", signature="C02/hold-release-raised/%s" % op[0], step=step,
                                      error="%s: %s" % (type(e).__name__, str(e)[:200])))
                     continue
-                line = [Atom("same"), 0]
+                line = [Atom("nop")]
             elif op[0] == "hold" and oheld_at is not None:
                 outs.append([Atom("skip")])
                 lines.append([Atom("skip")])
@@ -911,54 +1051,33 @@ def run(case, want_lines):
                 holds[i] -= 1
                 line = [Atom("release"), i]
             tree.refresh()
-            # objects created by this op join both sides' trees
-            new_nodes = [[j, -1 if tree.nodes[j][2] is None else tree.nodes[j][2]] for j in range(nnodes, len(tree.nodes))]
-            if new_nodes:
-                line = [Atom("grow"), new_nodes, [j for j, _ in new_nodes if tree.nodes[j][0].dirty], line]
             lines.append(line)
+            # ---- what the implementation did, observed: compared with the model's prediction, never handed to it ----
+            new_nodes = [[j, -1 if tree.nodes[j][2] is None else tree.nodes[j][2], Atom(tree.nodes[j][1])]
+                         for j in range(nnodes, len(tree.nodes))]
+            after_attached = {j for j in range(len(tree.nodes)) if tree.attached(j)}
+            gone = sorted(j for j in before_attached if j not in after_attached)
             changed = [tree.ids[oid] for (nm, oid) in rec.log[mark:] if nm.endswith(".Changed") and oid in tree.ids
                        and tree.ids[oid] < nnodes]
             after_dirty = set(_dirty_set(tree))
-            if op[0] == "touch":
-                # which objects did the mutator change?  The named one, plus objects it changes on the side (the font lib
-                # through the glyph order; the glyph lib through markColor / verticalOrigin / vertical margins): the deepest
-                # objects that became dirty or announced a change.  The model then predicts the whole propagation.
-                cand = (set(changed) | {j for j in (after_dirty - before_dirty) if j < nnodes})
-                after_fp = _fingerprints(tree)
-                cand |= {j for j, v in before_fp.items() if tree.attached(j) and after_fp.get(j) != v}
-                libchild = tree.ids.get(id(getattr(obj, "lib", None))) if kind == "glyph" else None
-                if kind == "glyph" and name in VIA_LIB and libchild is not None:
-                    cand.add(libchild)          # stored in the glyph lib: the lib is the object that changes
-                elif kind == "glyph" and name in ALSO_LIB and libchild is not None:
-                    cand.add(i)                 # (the lib joins through its fingerprint when the vertical origin changes)
-                elif not (kind == "font" and name == "glyphOrder="):
-                    cand.add(i)
-                roots = [j for j in cand if not any(j in tree.path(c)[1:] for c in cand)]
-                if i in cand and i not in roots:
-                    # the named object changes itself, whatever it also changes below it (a held child must not hide it)
-                    roots.append(i)
-                tl = [[Atom("touch"), j] for j in sorted(roots)]
-                gone = sorted(j for j in before_attached if not tree.attached(j))
-                inner = [Atom("seq")] + tl + [[Atom("drop"), j] for j in gone]
-                if lines[-1][0] == "grow":
-                    lines[-1][3] = inner
-                else:
-                    lines[-1] = inner
-            if op[0] == "release":
-                # a released notification may run a callback that changes another object (the glyph-order callback of the
-                # font runs when a held Layer.GlyphAdded is released and writes the font lib)
-                cand = (set(changed) | {j for j in (after_dirty - before_dirty) if j < nnodes}) - set(tree.path(i))
-                roots = [j for j in cand if not any(j in tree.path(c)[1:] for c in cand)]
-                if roots:
-                    base = lines[-1][3] if lines[-1][0] == "grow" else lines[-1]
-                    inner = [Atom("seq"), base] + [[Atom("touch"), j] for j in sorted(roots)]
-                    if lines[-1][0] == "grow":
-                        lines[-1][3] = inner
-                    else:
-                        lines[-1] = inner
-            multi = op[0] == "touch"
-            outs.append([[Atom("dirty"), [Atom("set")] + sorted(j for j in after_dirty if j < nnodes or True)],
-                         [Atom("changed"), [Atom("set")] + sorted(set(changed))]])
+            after_fp = _fingerprints(tree)
+            # the touched set as far as it can be seen from outside: the deepest objects (that were there before and still
+            # are) which announced a change, became dirty, or whose own data differ
+            evid = {j for j in changed if j in after_attached}
+            evid |= {j for j in (after_dirty - before_dirty) if j < nnodes}
+            evid |= {j for j, v in before_fp.items() if j in after_attached and after_fp.get(j) != v}
+            touched = _deepest(tree, evid)
+            outs.append([[Atom("dirty"), [Atom("set")] + sorted(after_dirty)],
+                         [Atom("changed"), [Atom("set")] + sorted(set(changed))],
+                         [Atom("touched"), [Atom("set")] + touched],
+                         [Atom("new"), new_nodes],
+                         [Atom("gone"), [Atom("set")] + gone]])
+            if _CALIB is not None and op[0] in ("touch", "same", "release"):
+                _CALIB.append(dict(op=op[0], kind=kind, name=name if op[0] != "release" else "release",
+                                   touched=sorted(_rel(tree, i, j) for j in touched),
+                                   new=[(k, _rel(tree, i, p), bool(tree.nodes[j][0].dirty)) for j, p, k in new_nodes],
+                                   gone=sorted(_rel(tree, i, j) for j in gone),
+                                   held=sorted(_rel(tree, i, j) for j, n in holds.items() if n and j in tree.path(i))))
             # ---- oracle -----------------------------------------------------------------
             if viol:
                 continue
@@ -1032,6 +1151,7 @@ def run(case, want_lines):
             pass
         return dict(out=outs, viol=viol, info=dict(nontrivial=deep, stats=stats), lines=lines)
     finally:
+        _CTX["tree"] = None
         shutil.rmtree(tmpd, ignore_errors=True)
 
 
